@@ -68,7 +68,7 @@ def strip (s : Str) : Str := rstrip (lstrip s)
 
 /-- `chr(c).lower()`; table generated from the running CPython -/
 def lowerChar (c : Char) : Str :=
-  match Gen.pyLowerTable.find? (fun e => e.1 == c.toNat) with
+  match (if c.toNat < 128 then Gen.pyLowerAscii else Gen.pyLowerTable).find? (fun e => e.1 == c.toNat) with
   | some e => e.2.map Char.ofNat
   | none => [c]
 
